@@ -665,7 +665,8 @@ private:
 				fraction_bits <<= 1;
 			}
 			int8_t k = scale >> 2;
-			uint16_t exp = (scale & 0x3) << (11 - k); // extract exponent and shift to correct location
+			// extract exponent and shift to correct location: for k > 11 the regime leaves less than two exponent bits
+			uint16_t exp = static_cast<uint16_t>((k <= 11) ? ((scale & 0x3) << (11 - k)) : ((scale & 0x3) >> (k - 11)));
 			fraction_bits = (fraction_bits ^ mask); // remove the leading 1
 			//uint16_t reg = (0x7FFF ^ (0x3FFF >> k));
 			//std::cout << "fra    : " << to_binary(fraction_bits, 64, true) << '\n';
